@@ -767,6 +767,8 @@ func checkC08(c *Ctx) (string, bool, []string) {
 		slotCases = append(slotCases, c08case{false, []durComp{{"1", u}}}, c08case{false, []durComp{{"90", u}, {"1500", durUnits[3]}}})
 	}
 	slotCases = append(slotCases, c08case{false, []durComp{{"5124096", durUnits[6]}}}, c08case{false, []durComp{{"10248192", durUnits[6]}}})
+	// zero, in three spellings, in every slot
+	slotCases = append(slotCases, c08case{false, []durComp{{"0", durUnits[4]}}}, c08case{false, []durComp{{"0", durUnits[0]}}}, c08case{false, []durComp{{"00", durUnits[8]}, {"0", durUnits[3]}}})
 	mon.Parallel(len(durSlots)*len(slotCases), c.Workers, func(i int) {
 		local := map[string]int64{}
 		c08Slot(c, durSlots[i/len(slotCases)], slotCases[i%len(slotCases)], local)
